@@ -448,7 +448,6 @@ def _agree_task(args):
                             continue
                         # the reference itself has a label / container problem
                         res_for_ref = ("ok", res[1], res[2], None)
-                        results_ref_backup = res_for_ref
                         verdict = (res[3].split(":")[0], res[3])
                         clause, this_ref_key = "C05.outputs.agree", ref_key
                         what, detail = verdict
